@@ -24,23 +24,28 @@ let process line =
     let o = Array.of_list (split_ws ops) in
     let j = ref 0 in
     let s = ref (fresh c) in
+    let ev = ref ev_fresh in
     let b = Buffer.create 512 in
     let add x = Buffer.add_char b ' '; Buffer.add_string b x in
     (* int16 wrap of INT arithmetic is outside the generated value range; values are printed as they are *)
     while !j < Array.length o do
+      let evop = ref EOther in
+      let faulted_before = !s.r_faulted in
       let op =
         (match int_of_string o.(!j) with
-         | 0 -> let d = z_of_string o.(!j + 1) in j := !j + 2; OCycle d
-         | 1 -> let i = int_of_string o.(!j + 1) in let v = z_of_string o.(!j + 2) in j := !j + 3; OSetG (nat_of_int i, v)
-         | 2 -> let pi = int_of_string o.(!j + 1) in let i = int_of_string o.(!j + 2) in let v = z_of_string o.(!j + 3) in j := !j + 4; OSetP (nat_of_int pi, nat_of_int i, v)
-         | 3 -> let w = int_of_string o.(!j + 1) <> 0 in j := !j + 2; ORestart w
-         | 4 -> incr j; OPower
-         | _ -> incr j; OFault) in
-      s := step_gen c !s op;
+         | 0 -> let d = z_of_string o.(!j + 1) in j := !j + 2; evop := ECycle; Some (OCycle d)
+         | 1 -> let i = int_of_string o.(!j + 1) in let v = z_of_string o.(!j + 2) in j := !j + 3; Some (OSetG (nat_of_int i, v))
+         | 2 -> let pi = int_of_string o.(!j + 1) in let i = int_of_string o.(!j + 2) in let v = z_of_string o.(!j + 3) in j := !j + 4; Some (OSetP (nat_of_int pi, nat_of_int i, v))
+         | 3 -> let w = int_of_string o.(!j + 1) <> 0 in j := !j + 2; evop := ERestart; Some (ORestart w)
+         | 4 -> incr j; evop := ERestart; Some OPower
+         | 6 -> let v = int_of_string o.(!j + 1) <> 0 in j := !j + 2; evop := ESetTrig v; None
+         | _ -> incr j; Some OFault) in
+      (match op with Some op -> s := step_gen c !s op | None -> ());
+      ev := ev_step false faulted_before !ev !evop;
       List.iter (fun v -> add (string_of_z v)) !s.r_g;
       List.iteri (fun pi _ -> List.iter (fun v -> add (string_of_z v)) (inst_vars !s (nat_of_int pi))) progs;
       List.iter (fun v -> add (string_of_z v)) !s.r_out;
-      add (string_of_z !s.r_time); add (if !s.r_faulted then "1" else "0")
+      add (string_of_z !s.r_time); add (if !s.r_faulted then "1" else "0"); add (string_of_z !ev.e_count)
     done;
     (* judge the implementation's observations *)
     let j =
@@ -60,13 +65,14 @@ let process line =
               | 2 -> kinds := 2 :: !kinds; jj := !jj + 4
               | 3 -> kinds := (if int_of_string o.(!jj + 1) <> 0 then 4 else 3) :: !kinds; jj := !jj + 2
               | 4 -> kinds := 5 :: !kinds; incr jj
+              | 6 -> kinds := 7 :: !kinds; jj := !jj + 2
               | _ -> kinds := 6 :: !kinds; incr jj)
            done;
            let l = List.map (fun k ->
              let g = List.map (fun _ -> tx ()) globals in
              let ps = List.map (fun vars -> List.map (fun _ -> tx ()) vars) progs in
              let out = List.init nb (fun _ -> tx ()) in
-             let tm = tx () in let f = tx () <> Z0 in
+             let tm = tx () in let f = tx () <> Z0 in let _evc = tx () in
              (nat_of_int k, { o_g = g; o_p = ps; o_out = out; o_time = tm; o_faulted = f })) (List.rev !kinds) in
            judge c l
          with _ -> false)
